@@ -60,10 +60,11 @@ def main():
             ov["Replace"][p] = dst
     json.dump(ov, open(ovp, "w"), indent=1)
     if cfg.get("goinstr"):
-        tool = os.path.join(os.path.dirname(os.path.abspath(__file__)), "goinstr")
         binp = os.path.join(scratch, "goinstr.bin")
         env = dict(os.environ)
-        r = subprocess.run(["go", "build", "-o", binp, "."], cwd=tool, env=env)
+        # the tool is a virtual package of the repository's module (it uses the module's own
+        # golang.org/x/tools/go/packages), built through the overlay that already holds the engine
+        r = subprocess.run(["go", "build", "-tags", "verif", "-overlay", ovp, "-o", binp, "./internal/verifx/goinstr"], cwd=REPO, env=env)
         if r.returncode != 0:
             sys.exit(1)
         r = subprocess.run([binp, "-repo", REPO, "-config", json.dumps(cfg["goinstr"]), "-out", outdir, "-overlay", ovp], env=env)
